@@ -46,7 +46,8 @@ fn file_ctx(t: &Truth, f: &GFile) -> String {
     format!("{} {} file", f.crypto_class(), t.size_class(f))
 }
 
-fn judge_target(t: &Truth, listed: &[bool], excluded: &[bool], dst: &Path, o: &Opt, r: &mut CaseResult) -> Option<TargetFacts> {
+/// `victim`: index of the one source file that cannot be read from the (damaged) source, if any
+fn judge_target(t: &Truth, listed: &[bool], excluded: &[bool], victim: Option<usize>, dst: &Path, o: &Opt, r: &mut CaseResult) -> Option<TargetFacts> {
     let before = r.viols.len();
     let mut a = match Archive::open(dst) {
         Ok(a) => a,
@@ -57,7 +58,7 @@ fn judge_target(t: &Truth, listed: &[bool], excluded: &[bool], dst: &Path, o: &O
     };
     let mut present = vec![false; t.files.len()];
     // total loss is its own failure mode: every listed, not excluded file is absent
-    let keepers: Vec<usize> = (0..t.files.len()).filter(|&k| listed[k] && !excluded[k]).collect();
+    let keepers: Vec<usize> = (0..t.files.len()).filter(|&k| listed[k] && !excluded[k] && Some(k) != victim).collect();
     let total_loss = !keepers.is_empty() && keepers.iter().all(|&k| matches!(a.find_file(&t.files[k].name), Ok(None)));
     if total_loss {
         r.viol(
@@ -75,6 +76,13 @@ fn judge_target(t: &Truth, listed: &[bool], excluded: &[bool], dst: &Path, o: &O
         };
         let keep = listed[k] && !excluded[k];
         match found {
+            None if keep && Some(k) == victim => {
+                // the call reported success, so the file had to be carried over; it could not be read, so it was not
+                r.viol(
+                    format!("rebuild reports success although a listed file of the source is missing from the target [file unreadable in the source, not excluded by the options, {} source, {}]", t.src_class(), file_ctx(t, f)),
+                    format!("name={} len={} requested target={} verify={}", f.name, f.data.len(), o.target(), o.verify()),
+                );
+            }
             None => {
                 if keep && !total_loss {
                     let why = if f.is_signature() { "signature entry, skip_signatures off" } else { "" };
@@ -91,6 +99,14 @@ fn judge_target(t: &Truth, listed: &[bool], excluded: &[bool], dst: &Path, o: &O
                     r.viol(format!("file excluded by {which} is present in the target"), format!("name={} flags={:#x}", f.name, fi.flags));
                 }
                 match a.read_file(&f.name) {
+                    Ok(got) if Some(k) == victim && keep => {
+                        if got != f.data {
+                            r.viol(
+                                format!("rebuild reports success although a listed file of the source could not be carried over: the target holds other content under its name [file unreadable in the source, {} source, {}]", t.src_class(), file_ctx(t, f)),
+                                format!("name={} len={} got_len={} requested target={}", f.name, f.data.len(), got.len(), o.target()),
+                            );
+                        }
+                    }
                     Ok(got) => {
                         if got != f.data {
                             let class = if got.len() != f.data.len() { "wrong length" } else { "same length, wrong bytes" };
@@ -144,7 +160,9 @@ fn judge_target(t: &Truth, listed: &[bool], excluded: &[bool], dst: &Path, o: &O
     Some(TargetFacts { present, faults: r.viols.len() - before, specials })
 }
 
-pub fn judge_rebuild(t: &Truth, src: &Path, dst: &Path, o: &Opt, r: &mut CaseResult) {
+/// `victim`: `Some(k)` when the source was damaged so that file `k` (and only it) cannot be read.  Then
+/// `Err` is always an acceptable answer; `Ok` is judged like any other rebuild against the UNDAMAGED truth.
+pub fn judge_rebuild(t: &Truth, src: &Path, dst: &Path, o: &Opt, victim: Option<usize>, r: &mut CaseResult) {
     // listed names: the source's own (listfile) through the independent reader
     let mut listed: Vec<bool> = t.files.iter().map(|f| f.listed && t.has_listfile).collect();
     if t.has_listfile {
@@ -182,8 +200,15 @@ pub fn judge_rebuild(t: &Truth, src: &Path, dst: &Path, o: &Opt, r: &mut CaseRes
                 r.err_return = true;
                 return;
             }
+            if victim.is_some() {
+                // a source with an unreadable listed file may be refused at any stage (e.g. by the
+                // verification after the target was written): the loss is reported, nothing is demanded
+                r.err_return = true;
+                r.count("err_with_target_left_behind_damaged_source", 1);
+                return;
+            }
             // Err after the target was produced (verification or late failure): judge what was left behind
-            let facts = judge_target(t, &listed, &excluded, dst, o, r);
+            let facts = judge_target(t, &listed, &excluded, victim, dst, o, r);
             if let Some(f) = facts {
                 if f.faults == 0 && !t.has_listfile {
                     // nothing was listed, nothing was demanded: the Err (verification noticing the empty
@@ -234,6 +259,8 @@ pub fn judge_rebuild(t: &Truth, src: &Path, dst: &Path, o: &Opt, r: &mut CaseRes
                 );
             }
             let n_excl = excluded.iter().filter(|&&x| x).count();
+            // a file that cannot be read is truthfully reported as not extracted
+            let n_keep = n_keep - victim.map_or(0, |k| (listed[k] && !excluded[k]) as usize);
             if sum.extracted_files < n_keep || sum.extracted_files > (n_user - n_excl) + n_spec_src {
                 let what = if sum.extracted_files < n_keep { "reports listed, not excluded source files as skipped" } else { "reports more extracted files than the options keep" };
                 r.viol(
@@ -249,7 +276,7 @@ pub fn judge_rebuild(t: &Truth, src: &Path, dst: &Path, o: &Opt, r: &mut CaseRes
         r.viol("rebuild_archive returned Ok without producing the target", "");
         return;
     }
-    let Some(facts) = judge_target(t, &listed, &excluded, dst, o, r) else { return };
+    let Some(facts) = judge_target(t, &listed, &excluded, victim, dst, o, r) else { return };
     let p_user = facts.present.iter().filter(|&&p| p).count();
     let carried_spec = facts.specials.iter().filter(|s| (**s == "(listfile)" && t.has_listfile) || (**s == "(attributes)" && t.has_attributes)).count();
     if check_sum(r) {
@@ -286,6 +313,10 @@ pub fn judge_rebuild(t: &Truth, src: &Path, dst: &Path, o: &Opt, r: &mut CaseRes
     // ---- comparison must report no content difference (judged when the target is faithful; a
     //      panic or Err of the comparison is judged always)
     let faithful = facts.faults == 0;
+    if victim.is_some() {
+        // comparing against a source with an unreadable file is outside what the property states
+        return;
+    }
     for detailed in [false, true] {
         let mode = if detailed { "detailed" } else { "plain" };
         match guarded(|| compare_archives(src, dst, detailed, true, false, true, None)) {
